@@ -37,11 +37,13 @@ Proof. apply res_eqb_eq. apply lines_eqb_eq. Qed.
 
 Lemma jval_eqb_eq a b : jval_eqb a b = true <-> a = b.
 Proof.
-  destruct a as [|x|x|x|x], b as [|y|y|y|y]; cbn; split; intros E; try discriminate; try reflexivity; try congruence.
+  destruct a as [|x|x|x|x|x], b as [|y|y|y|y|y]; cbn; split; intros E; try discriminate; try reflexivity; try congruence.
   - apply Bool.eqb_prop in E. congruence.
   - inversion E. apply Bool.eqb_reflx.
-  - apply N.eqb_eq in E. congruence.
-  - inversion E. apply N.eqb_refl.
+  - apply Z.eqb_eq in E. congruence.
+  - inversion E. apply Z.eqb_refl.
+  - apply text_eqb_eq in E. congruence.
+  - inversion E. apply text_eqb_eq. reflexivity.
   - apply text_eqb_eq in E. congruence.
   - inversion E. apply text_eqb_eq. reflexivity.
   - apply text_eqb_eq in E. congruence.
